@@ -15,6 +15,12 @@ for crate, files in (("rand_xoshiro", None), ("rand_xorshift", ["lib.rs"]), ("ra
     for f in (files or sorted(os.listdir(src))):
         if f.endswith(".rs"):
             shutil.copy(os.path.join(src, f), os.path.join(dst, f))
+# all sources of the five crates (reference for "which numeric literals are new", tools/ties.py new_literals)
+import glob
+for f in glob.glob("/repo/rand_*/src/*.rs"):
+    dst = os.path.join(P, os.path.relpath(f, "/repo"))
+    os.makedirs(os.path.dirname(dst), exist_ok=True)
+    shutil.copy(f, dst)
 r = exttie.run(P)
 bad = [k for k, v in r["theorems"].items() if not v["ok"]]
 if bad:
